@@ -1495,6 +1495,12 @@ def run_gate(case):
             "post": post_eff, "trace": trace, "adm": adm, "stats": stats, "variant": variant()}
 
 
+def _replace_validates_first():
+    from pyiron_workflow.channels import DataChannel
+
+    return hasattr(DataChannel, "_ensure_valid_value_receiver")
+
+
 def gate_model_input(case, impl):
     th, to = impl["th"], impl["to"]
     h = " ".join(tok(th)) if th else "-"
@@ -1507,7 +1513,10 @@ def gate_model_input(case, impl):
         lines.append("strict 1 0")
     if impl["pre"] is not None:
         lines.append("setval 0 " + " ".join(tok_val(impl["pre"])))
-    lines += [f"link {mech} 0 1", "links"]
+    # replace_child re-forges the value links of the replaced child: in the current tree the pair is validated
+    # up front and a value the receiver does not take is simply not pushed (observed on the tree, not assumed)
+    soft = case.get("via") in ("rep_mi", "rep_mo") and _replace_validates_first()
+    lines += [f"{'relink' if soft else 'link'} {mech} 0 1", "links"]
     for op in impl["post"]:
         if op[0] == "strict":
             lines.append(f"strict {0 if op[1] == 's' else 1} {op[2]}")
